@@ -106,9 +106,19 @@ func tryReplay(E *Engine, cfg *PropConfig, o *Obl, dir string) (string, bool, st
 	}
 	var vals []string
 	if len(all) > 0 && o.Model == "" {
-		return "", false, "the solvers gave no model for this obligation (" + o.Status + "), and the replay template needs input values"
+		// no model (the solvers answered unknown): the template's scenario part, if it has one, can still run;
+		// its model inputs get neutral values (empty slices, zero, false)
+		for _, w := range wants {
+			for range w.terms {
+				if w.kind == "bool" {
+					vals = append(vals, "false")
+				} else {
+					vals = append(vals, "0")
+				}
+			}
+		}
 	}
-	if len(all) > 0 {
+	if len(all) > 0 && o.Model != "" {
 		q := o.query(false)
 		q = "(set-option :produce-models true)\n" + q + "(get-value (" + strings.Join(all, " ") + "))\n"
 		tmp, _ := os.MkdirTemp("", "vreplay")
